@@ -40,11 +40,13 @@ CONSTANTS
     StaleTmpDirBug, \* TRUE: pinned behaviour, a stale <t>.redo.tmp that is a directory makes start_self fail (EISDIR)
     SelfDepPanics, \* TRUE: pinned behaviour, add_dep asserts self.id != src.id (exit 101)
     NullStampPanics, \* TRUE: pinned behaviour, start_self unwraps the stamp of a generated record that has none (exit 101)
+    OverrideStale, \* TRUE: pinned behaviour, start_self records an overridden file only when it first notices the override
     Links,      \* [link name -> Seq(names)]: sources that are symbolic links, and what the user may point them to
                 \* (initially the first; the pointees are sources that are never removed)
     LogViewer,  \* TRUE: top-level commands run with their log viewer (redo-log), which probes target locks
     Alias,      \* [spelling -> name]: other spellings (./a, d/../a, ...) of files, as they may appear on command lines
                 \* and in scripts; every spelling of a file is that file (one record, one lock, one build)
+    Pairs,      \* set of pairs <<c1, c2>> of commands the user may start at the same time (two invocations on one project)
     NameSeq     \* all file names in the order of SQL `order by name` (TLC cannot compare strings)
 
 Files == Plain \cup DoFiles
@@ -70,7 +72,7 @@ VARIABLES
     hist,    \* user-level history with observations, for replay
     ran,     \* targets whose script was started by the command in flight
     ncmds,
-    pool,    \* free job tokens (the token pipe, abstractly)
+    pool,    \* free job tokens (the token pipe, abstractly) of each top-level command
     gh       \* ghost state for the reference semantics (never read by the actions):
              \*   gh.cg[n]   content generation of file n: bumped by every user write or
              \*              removal and by every rebuild -- except a rebuild of a
@@ -84,8 +86,12 @@ vars == <<fs, tmp, clock, w, runid, locks, procs, cmd, hist, ran, ncmds, pool, g
 
 NoPid == <<>>
 Top   == <<"c">>
+Top2  == <<"d">>        \* the second of two commands started together
+Root(p) == <<p[1]>>     \* the top-level command a process belongs to (its jobserver, its run id)
 
-Idle == [kind |-> "idle", targs |-> <<>>, keep |-> FALSE, j |-> 1, cwd |-> ""]
+NoCmd == [kind |-> "none", targs |-> <<>>, keep |-> FALSE, j |-> 1, cwd |-> ""]
+Idle  == [kind |-> "idle", targs |-> <<>>, keep |-> FALSE, j |-> 1, cwd |-> "", c2 |-> NoCmd]
+WithC2(c, c2) == [kind |-> c.kind, targs |-> c.targs, keep |-> c.keep, j |-> c.j, cwd |-> c.cwd, c2 |-> c2]
 
 FileRec(n, k, c, own) == [ex |-> TRUE, val |-> [n |-> n, k |-> k, v |-> c, d |-> <<>>],
                           ver |-> c, own |-> own, dir |-> FALSE, lnk |-> ""]
@@ -157,10 +163,11 @@ Init ==
     /\ hist = << >>
     /\ ran = << >>
     /\ ncmds = 0
-    /\ pool = 0
+    /\ pool = [r \in {Top, Top2} |-> 0]
     /\ gh = [cg |-> [n \in Files |-> 0],
              seen |-> [n \in Plain |-> NeverBuilt],
-             fails |-> {}, src |-> {}, codes |-> {}, crashes |-> 0, crashNow |-> FALSE, inner |-> {}]
+             fails |-> {}, src |-> {}, codes |-> {}, crashes |-> 0, crashNow |-> FALSE, inner |-> {},
+             ranr |-> << >>]      \* ranr[i]: the command (root) that started ran[i]
 
 \* (a symbolic link to n reads differently too)
 Bump(n) == [gh EXCEPT !.cg = [x \in Files |-> IF x = n \/ (fs[x].ex /\ fs[x].lnk = n) THEN @[x] + 1 ELSE @[x]],
@@ -256,23 +263,63 @@ DoAdd(df) ==
 (***************************************************************************)
 (* Commands                                                                *)
 (***************************************************************************)
+TopRec(c) == [ProcDefaults EXCEPT !.kind = "redo", !.pc = "init", !.forced = (c.kind = "redo"), !.keep = c.keep,
+                                  !.targs = NormSeqAt(c.cwd, c.targs), !.tok = 1]
+
 StartBuild(c) ==
     /\ CanAct /\ ncmds < MaxCmds /\ c \in Cmds /\ c.kind \in {"ifchange", "redo"}
     /\ runid' = runid + 1
-    /\ cmd' = c
+    /\ cmd' = WithC2(c, NoCmd)
     /\ ncmds' = ncmds + 1
     /\ ran' = << >>
-    /\ procs' = Spawn(procs, Top,
-                      [ProcDefaults EXCEPT !.kind = "redo", !.pc = "pass1", !.rid = runid + 1,
-                                           !.forced = (c.kind = "redo"), !.keep = c.keep,
-                                           !.targs = NormSeqAt(c.cwd, c.targs), !.tok = 1])
+    /\ procs' = Spawn(procs, Top, [TopRec(c) EXCEPT !.pc = "pass1", !.rid = runid + 1])
     \* only `redo -jN` creates more than one token; redo-ifchange at top level runs -j1
-    /\ pool' = IF c.kind = "redo" THEN c.j - 1 ELSE 0
-    /\ gh' = [gh EXCEPT !.fails = {}, !.codes = {}, !.crashNow = FALSE, !.inner = {}]
+    /\ pool' = [pool EXCEPT ![Top] = IF c.kind = "redo" THEN c.j - 1 ELSE 0]
+    /\ gh' = [gh EXCEPT !.fails = {}, !.codes = {}, !.crashNow = FALSE, !.inner = {}, !.ranr = << >>]
     /\ UNCHANGED <<fs, tmp, clock, w, locks, hist>>
 
+\* Two commands started at the same time by two users (or two terminals) of one project.  Each is a top-level
+\* invocation with its own jobserver; each allocates its run id in its start-up transaction (InitRun), in either order
+\* and at any moment relative to the other's progress.
+StartPar(pr) ==
+    /\ CanAct /\ ncmds + 2 <= MaxCmds /\ pr \in Pairs
+    /\ cmd' = WithC2(pr[1], pr[2])
+    /\ ncmds' = ncmds + 2
+    /\ ran' = << >>
+    /\ procs' = Spawn(Spawn(procs, Top, TopRec(pr[1])), Top2, TopRec(pr[2]))
+    /\ pool' = [r \in {Top, Top2} |-> LET c == IF r = Top THEN pr[1] ELSE pr[2] IN IF c.kind = "redo" THEN c.j - 1 ELSE 0]
+    /\ gh' = [gh EXCEPT !.fails = {}, !.codes = {}, !.crashNow = FALSE, !.inner = {}, !.ranr = << >>]
+    /\ UNCHANGED <<fs, tmp, clock, w, runid, locks, hist>>
+
+\* ProcessState::init of a top-level command: the start-up transaction allocates the run id
+InitRun(p) ==
+    /\ Alive(p) /\ procs[p].kind = "redo" /\ procs[p].pc = "init"
+    /\ runid' = runid + 1
+    /\ procs' = [procs EXCEPT ![p].pc = "pass1", ![p].rid = runid + 1]
+    /\ UNCHANGED <<fs, tmp, clock, w, locks, cmd, hist, ran, ncmds, pool, gh>>
+
+\* the targets whose scripts the command with root r started, in order
+RECURSIVE PickRan(_, _)
+PickRan(i, r) == IF i > Len(ran) THEN << >>
+                 ELSE (IF gh.ranr[i] = r THEN <<ran[i]>> ELSE << >>) \o PickRan(i + 1, r)
+
+\* both commands of a pair have ended
+EndPar ==
+    /\ cmd.kind \in {"ifchange", "redo"} /\ cmd.c2.kind # "none"
+    /\ DOMAIN procs = {Top, Top2} /\ procs[Top].pc = "done" /\ procs[Top2].pc = "done"
+    /\ procs' = << >>
+    /\ cmd' = Idle
+    /\ hist' = Append(hist, [a |-> "par",
+                             c1 |-> [kind |-> cmd.kind, targs |-> cmd.targs, keep |-> cmd.keep, j |-> cmd.j, cwd |-> cmd.cwd,
+                                     rc |-> procs[Top].rc, ran |-> PickRan(1, Top)],
+                             c2 |-> [kind |-> cmd.c2.kind, targs |-> cmd.c2.targs, keep |-> cmd.c2.keep, j |-> cmd.c2.j,
+                                     cwd |-> cmd.c2.cwd, rc |-> procs[Top2].rc, ran |-> PickRan(1, Top2)],
+                             snap |-> Snapshot])
+    /\ ran' = << >>
+    /\ UNCHANGED <<fs, tmp, clock, w, runid, locks, ncmds, pool, gh>>
+
 EndBuild ==
-    /\ cmd.kind \in {"ifchange", "redo"}
+    /\ cmd.kind \in {"ifchange", "redo"} /\ cmd.c2.kind = "none"
     /\ DOMAIN procs = {Top} /\ procs[Top].pc = "done"
     /\ procs' = << >>
     /\ cmd' = Idle
@@ -370,7 +417,7 @@ Decide(p, t, w1, adv) ==
     ELSE IF sb.v = "cycle" THEN Imm(sb.w, 208, "cycle")
     ELSE IF sb.v = "clean" THEN Imm(sb.w, 0, "clean")
     ELSE IF sb.v = "dirty" \/ P.oob THEN
-        LET ss == StartSelf(sb.w, e, t, sf, Cands[t], NullStampPanics) IN
+        LET ss == StartSelf(sb.w, e, t, sf, Cands[t], NullStampPanics, OverrideStale) IN
         IF ss.k = "panic" THEN ErrorExit(p, 101, sb.w)
         ELSE IF ss.k \in {"static", "norule"} THEN Imm(ss.w, ss.rv, ss.k)
         ELSE IF StaleTmpDirBug /\ TmpDir(t) THEN
@@ -383,12 +430,13 @@ Decide(p, t, w1, adv) ==
             /\ tmp' = DelTmp(tmp, t)
             /\ locks' = lockIt
             /\ ran' = Append(ran, t)
+            /\ gh' = [gh EXCEPT !.ranr = Append(@, Root(p))]
             /\ procs' = Spawn([procs EXCEPT ![p] = [adv EXCEPT !.jobs = @ \cup {[JobRec(t, "self", ss.sf, before, s) EXCEPT !.df = ss.df]},
                                                                !.tok = 0]],
                               s, [ProcDefaults EXCEPT !.kind = "script", !.par = p, !.pc = "run", !.tok = 1,
                                      !.rid = P.rid, !.keep = P.keep, !.t = t, !.df = ss.df,
                                      !.dv = DoVer(ss.df), !.cyc = P.cyc \cup {t}])
-            /\ UNCHANGED <<fs, clock, runid, cmd, hist, ncmds, pool, gh>>
+            /\ UNCHANGED <<fs, clock, runid, cmd, hist, ncmds, pool>>
     ELSE \* NeedTargets: redo-unlocked t deps...
         LET u == p \o <<t>> IN
         /\ w' = sb.w
@@ -486,7 +534,7 @@ Reap(p, j) ==
                                      !.val = c.val, !.decl = c.decl, !.stamped = c.stamped]},
                                    ![p].tok = 1],
                      {j.pid})
-    /\ pool' = IF P.tok = 1 THEN pool + 1 ELSE pool
+    /\ pool' = IF P.tok = 1 THEN [pool EXCEPT ![Root(p)] = @ + 1] ELSE pool
     /\ UNCHANGED <<fs, tmp, clock, w, runid, locks, cmd, hist, ran, ncmds, gh>>
 
 \* builder.rs:528-563: output written to stdout is first copied to <t>.redo.tmp
@@ -568,11 +616,11 @@ UnlDone(p, j) ==
 \* ensure_token: take a free token from the pool when about to consider a target
 Acquire(p) ==
     LET P == procs[p] IN
-    /\ P.kind = "redo" /\ P.tok = 0 /\ pool > 0
+    /\ P.kind = "redo" /\ P.tok = 0 /\ pool[Root(p)] > 0
     /\ \/ P.pc = "pass1" /\ P.i <= Len(P.targs)
        \/ P.pc = "pass2" /\ P.queue # << >> /\ NoneRunning(P)
     /\ procs' = [procs EXCEPT ![p].tok = 1]
-    /\ pool' = pool - 1
+    /\ pool' = [pool EXCEPT ![Root(p)] = @ - 1]
     /\ UNCHANGED <<fs, tmp, clock, w, runid, locks, cmd, hist, ran, ncmds, gh>>
 
 \* wait_all: give up the own token while jobs are still running
@@ -580,7 +628,7 @@ Release(p) ==
     LET P == procs[p] IN
     /\ P.kind = "redo" /\ P.pc = "pass2" /\ P.tok = 1 /\ ~NoneRunning(P)
     /\ procs' = [procs EXCEPT ![p].tok = 0]
-    /\ pool' = pool + 1
+    /\ pool' = [pool EXCEPT ![Root(p)] = @ + 1]
     /\ UNCHANGED <<fs, tmp, clock, w, runid, locks, cmd, hist, ran, ncmds, gh>>
 
 Finish(p) ==
@@ -749,7 +797,7 @@ InWindow == \E p \in DOMAIN procs : \E j \in procs[p].jobs : j.st = "fs"
 InStampWindow ==
     \/ \E p \in DOMAIN procs : procs[p].kind = "script" /\ procs[p].stamped
     \/ \E p \in DOMAIN procs : \E j \in procs[p].jobs : j.k = "self" /\ j.stamped
-CanCrash == cmd.kind \in {"ifchange", "redo"} /\ gh.crashes < MaxCrash /\ DOMAIN procs # {}
+CanCrash == cmd.kind \in {"ifchange", "redo"} /\ cmd.c2.kind = "none" /\ gh.crashes < MaxCrash /\ DOMAIN procs # {}
             /\ (CrashWindow \/ ~InWindow) /\ (StampWindow \/ ~InStampWindow)
 
 \* SIGKILL of the whole process tree
@@ -760,7 +808,7 @@ CrashTree ==
     /\ locks' = [n \in Plain |-> NoPid]
     /\ cmd' = Idle
     /\ ran' = << >>
-    /\ pool' = 0
+    /\ pool' = [r \in {Top, Top2} |-> 0]
     /\ gh' = [gh EXCEPT !.crashes = @ + 1, !.crashNow = TRUE]
     /\ hist' = Append(hist, [a |-> "crash", kind |-> cmd.kind, targs |-> cmd.targs, keep |-> cmd.keep,
                              j |-> cmd.j, cwd |-> cmd.cwd, who |-> "tree", snap |-> Snapshot])
@@ -799,11 +847,12 @@ ScriptStepA == \E p \in DOMAIN procs : ScriptStep(p)
 ScriptResumeA == \E p \in DOMAIN procs : ScriptResume(p)
 UnlockedStepA == \E p \in DOMAIN procs : UnlockedStep(p)
 OrphanReapA == \E p \in DOMAIN procs : OrphanReap(p)
+InitRunA    == \E p \in DOMAIN procs : InitRun(p)
 
 ProcStep ==
     \/ DeclareA \/ ConsiderA \/ Pass2A \/ FinishA \/ AcquireA \/ ReleaseA
     \/ ReapA \/ RecCopyA \/ RecFsA \/ RecCommitA \/ UnlDoneA
-    \/ ScriptStepA \/ ScriptResumeA \/ UnlockedStepA \/ OrphanReapA
+    \/ ScriptStepA \/ ScriptResumeA \/ UnlockedStepA \/ OrphanReapA \/ InitRunA
 
 UserStep ==
     \/ \E n \in UserFiles : UserWrite(n)
@@ -812,12 +861,13 @@ UserStep ==
     \/ \E n \in DOMAIN Links : \E i \in 1..Len(Links[n]) : UserRelink(n, Links[n][i])
     \/ \E df \in DoEdits : DoEdit(df) \/ DoRemove(df) \/ DoAdd(df)
     \/ \E c \in Cmds : StartBuild(c) \/ Query(c)
+    \/ \E pr \in Pairs : StartPar(pr)
 
 Next ==
     \/ DeclareA \/ ConsiderA \/ Pass2A \/ FinishA \/ AcquireA \/ ReleaseA
     \/ ReapA \/ RecCopyA \/ RecFsA \/ RecCommitA \/ UnlDoneA
-    \/ ScriptStepA \/ ScriptResumeA \/ UnlockedStepA \/ OrphanReapA
-    \/ EndBuild \/ UserStep
+    \/ ScriptStepA \/ ScriptResumeA \/ UnlockedStepA \/ OrphanReapA \/ InitRunA
+    \/ EndBuild \/ EndPar \/ UserStep
     \/ CrashTree \/ \E p \in DOMAIN procs : CrashOne(p)
 
 Spec == Init /\ [][Next]_vars
